@@ -11,6 +11,7 @@
 #include "mem.h"
 #include "verif_hooks.h"
 #include <stdatomic.h>
+#include <signal.h>
 
 #define M_THREADS_ASSERT(pool, ret) \
     M_RET_ASSERT(pool->init_state & INITED_STARTED, -EPERM);
@@ -163,6 +164,15 @@ static int add_threads(m_thpool_t *pool, int num) {
     if (pool->flags & M_THPOOL_DETACHED) {
         pthread_attr_setdetachstate(&tattr, PTHREAD_CREATE_DETACHED);
     }
+    /*
+     * Workers are no place for the application's signals: a signal sent to the
+     * process must reach the threads that expect it (eg: the ones polling a signalfd),
+     * not be "handled" - with its default action - by a worker that never blocked it.
+     */
+    sigset_t all_sigs;
+    sigset_t old_sigs;
+    sigfillset(&all_sigs);
+    pthread_sigmask(SIG_SETMASK, &all_sigs, &old_sigs);
     int err = 0;
     for (int i = 0; i < num && err == 0; i++) {
         pthread_t *th = memhook._calloc(1, sizeof(pthread_t));
@@ -175,6 +185,7 @@ static int add_threads(m_thpool_t *pool, int num) {
             memhook._free(th);
         }
     }
+    pthread_sigmask(SIG_SETMASK, &old_sigs, NULL);
     pthread_attr_destroy(&tattr);
     return err;
 }
